@@ -319,6 +319,8 @@ def check_case(ctx: runner.Ctx, case):  # noqa: C901, PLR0912, PLR0915
         return check_alias(ctx, case)
     if case.get("mode") == "implicit":
         return check_implicit(ctx, case)
+    if case.get("mode") == "same_name":
+        return check_same_name(ctx, case)
     a_spec, b_spec = case["a"], case["b"]
     shared = codec.Env()
     ha, hb = build_hint(a_spec, shared), build_hint(b_spec, shared)
@@ -571,6 +573,77 @@ def lookalike_cases():
                "probes": [], "values": [], "order": False}
 
 
+# ------------------------------------------------------------------------------------ classes that share a name
+def _same_name_world():
+    """Pairs of DIFFERENT classes whose names coincide (same __qualname__, other module: versioned APIs, two vendored copies): whatever
+    the normal form sorts union members by, it must not tie on them."""
+    import dataclasses  # noqa: PLC0415
+    import enum  # noqa: PLC0415
+    out = {}
+    out["enum"] = (enum.Enum("Color", {"RED": 1, "BLUE": 2}, module="c15_pkg_a.colors"),
+                   enum.Enum("Color", {"RED": 1, "GREEN": 3}, module="c15_pkg_b.colors"), 1)
+    out["int_enum"] = (enum.IntEnum("Level", {"LOW": 1}, module="c15_pkg_a.levels"), enum.IntEnum("Level", {"LOW": 1}, module="c15_pkg_b.levels"), 1)
+    a1 = dataclasses.make_dataclass("Address", [("street", str)])
+    a2 = dataclasses.make_dataclass("Address", [("street", str), ("country", str, dataclasses.field(default="NL"))])
+    a1.__module__, a2.__module__ = "c15_shop_v1", "c15_shop_v2"
+    out["dataclass"] = (a1, a2, {"street": "Damrak 1"})
+    b1 = dataclasses.make_dataclass("Local", [("v", int)])
+    b2 = dataclasses.make_dataclass("Local", [("v", int), ("w", int, dataclasses.field(default=0))])   # same module AND same name
+    out["same_module"] = (b1, b2, {"v": 1})
+    f1, f2 = enum.Flag("Perm", {"R": 1}, module="c15_pkg_a.perm"), enum.Flag("Perm", {"R": 1}, module="c15_pkg_b.perm")
+    out["flag"] = (f1, f2, 1)
+    return out
+
+
+_SAME_NAME: dict = {}
+SAME_NAME_KINDS = ["enum", "int_enum", "dataclass", "same_module", "flag"]
+SAME_NAME_SHAPES = ["bare3", "in_dict", "in_list", "optional", "nested_arg"]
+
+
+def same_name_cases():
+    for kind in SAME_NAME_KINDS:
+        for shape in SAME_NAME_SHAPES:
+            yield {"mode": "same_name", "kind": kind, "shape": shape}
+
+
+def check_same_name(ctx, case):
+    import typing as tp  # noqa: PLC0415
+    if not _SAME_NAME:
+        _SAME_NAME.update(_same_name_world())
+    c1, c2, datum = _SAME_NAME[case["kind"]]
+    shape = case["shape"]
+    # the two spellings must not be EQUAL for typing (normalize_type caches by the hint): another member is respelled too
+    if shape == "bare3":
+        h1, h2, d = tp.Union[c1, c2, tp.List[str]], tp.Union[c2, c1, list[str]], datum
+    elif shape == "in_dict":
+        h1, h2, d = tp.Dict[str, tp.Union[c1, c2]], dict[str, tp.Union[c2, c1]], {"k": datum}
+    elif shape == "in_list":
+        h1, h2, d = tp.List[tp.Union[c1, c2]], list[tp.Union[c2, c1]], [datum]
+    elif shape == "optional":
+        h1, h2, d = tp.Optional[tp.Union[c1, c2, tp.List[int]]], tp.Union[c2, None, c1, list[int]], datum
+    else:
+        h1, h2, d = tp.Union[tp.List[c1], tp.List[c2], tp.Dict[str, int]], tp.Union[list[c2], list[c1], dict[str, int]], [datum]
+    ctx.case(["same_name", case], True, sample={**case, "h1": str(h1), "h2": str(h2)}, labels=["part:same_name_classes", f"kind:{case['kind']}"])
+    n1, n2 = normalize_type(h1), normalize_type(h2)
+    if n1 != n2 or hash(n1) != hash(n2):
+        ctx.violation("equivalent_hints_normalise_differently", ("same_name_classes", case["kind"]), case,
+                      f"{h1} and {h2} (the two classes share their name and differ in module / identity) normalise to {n1!r} and {n2!r}")
+        return
+    from adaptix import DebugTrail  # noqa: PLC0415
+    for dbg in (DebugTrail.DISABLE, DebugTrail.FIRST, DebugTrail.ALL):
+        retort = Retort(debug_trail=dbg)
+        r1, r2 = retort.load(d, h1), retort.load(d, h2)
+
+        def cls_of(x):
+            while isinstance(x, (list, dict)):
+                x = next(iter(x.values())) if isinstance(x, dict) else x[0]
+            return type(x)
+        if cls_of(r1) is not cls_of(r2):
+            ctx.violation("equivalent_hints_load_differently", ("same_name_classes", case["kind"]), case,
+                          f"load({d!r}) gives {r1!r} of {cls_of(r1).__module__} for {h1} and {r2!r} of {cls_of(r2).__module__} for {h2}")
+            return
+
+
 # ------------------------------------------------------------------------------------ parametrised PEP 695 aliases
 _ALIAS_NS: dict = {}
 _ALIAS_SRC = """
@@ -623,6 +696,8 @@ def explore(ctx: runner.Ctx):
         for name in ALIAS_PROBES:
             runner.guarded(ctx, lambda k: check_case(ctx, k), {"mode": "alias", "name": name})
         for c in lookalike_cases():
+            runner.guarded(ctx, lambda k: check_case(ctx, k), c)
+        for c in same_name_cases():
             runner.guarded(ctx, lambda k: check_case(ctx, k), c)
     ctx.given(st_case(), lambda c: check_case(ctx, c), ctx.budget(4000, 300000))
 
